@@ -120,6 +120,10 @@ def shapes(tier: str) -> list[tuple[str, Any]]:
         out.append(("TAnswer+dyn", lambda v=v: E.TAnswer(response="r", dyn=v)))
         out.append(("WorkflowCancelledEvent(dyn)", lambda v=v: WorkflowCancelledEvent(why=v)))
         out.append(("WorkflowTimedOutEvent+dyn", lambda v=v: WorkflowTimedOutEvent(timeout=1.5, active_steps=["a", "b"], dyn=v)))
+    # start events whose own fields are named like envelope keys (sent bare by the client, read with the workflow's start class)
+    for v in vals[:6]:
+        out.append(("UploadStart(type=...)+dyn", lambda v=v: E.UploadStart(type="csv", topic="é", dyn=v)))
+        out.append(("RoutedStart(qualified_name=...)+dyn", lambda v=v: E.RoutedStart(qualified_name="a.b.C", n=2, dyn=v)))
     out.append(("Event()", lambda: Event()))
     out.append(("StopEvent()", lambda: StopEvent()))
     out.append(("Typed(min)", lambda: E.Typed(i=-1)))
@@ -156,7 +160,7 @@ def shapes(tier: str) -> list[tuple[str, Any]]:
 # ------------------------------------------------------------------ channels ----------------------------------
 _SER = JsonSerializer()
 REGISTRY = [Event, StartEvent, StopEvent, InputRequiredEvent, HumanResponseEvent, WorkflowCancelledEvent, WorkflowTimedOutEvent,
-            WorkflowFailedEvent, StepFailedEvent, E.Typed, E.Nested, E.TStart, E.TStop, E.TStopNested, E.TAsk, E.TAnswer, E.Stamped, E.StampedStop]
+            WorkflowFailedEvent, StepFailedEvent, E.Typed, E.Nested, E.TStart, E.UploadStart, E.RoutedStart, E.TStop, E.TStopNested, E.TAsk, E.TAnswer, E.Stamped, E.StampedStop]
 
 
 def ch_json(e: Event) -> Event:
@@ -185,6 +189,13 @@ def ch_envelope_client(e: Event) -> Event:
     env = EventEnvelope.from_event(e)
     text = json.dumps(env.model_dump())
     return EventEnvelope.parse(text, registry={c.__name__: c for c in REGISTRY})
+
+
+def ch_bare_explicit(e: Event) -> Event:
+    # how the client sends a start event (bare field dict) and the server reads it (with the workflow's start event class)
+    if not isinstance(e, StartEvent):
+        return e  # (only start events travel this way)
+    return EventEnvelope.parse(json.dumps(e.model_dump()), registry={}, explicit_event=type(e))
 
 
 def _tick_rt(tick: Any) -> Any:
@@ -225,7 +236,8 @@ def ch_tick_input(e: Event) -> Event:
 
 CHANNELS = {"json_serializer": ch_json, "json_serializer_nested": ch_json_nested, "envelope_with_metadata": ch_envelope_meta,
             "envelope_registry": ch_envelope_registry, "client_envelope": ch_envelope_client, "tick_add_event": ch_tick_add,
-            "tick_publish_event": ch_tick_publish, "tick_step_result": ch_tick_result, "tick_step_input": ch_tick_input}
+            "tick_publish_event": ch_tick_publish, "tick_step_result": ch_tick_result, "tick_step_input": ch_tick_input,
+            "bare_fields_with_explicit_class": ch_bare_explicit}
 
 
 def other_ticks() -> list[tuple[str, list[str]]]:
@@ -328,7 +340,7 @@ RULE = ("event shapes {Event, typed, nested model, Start/Stop/InputRequired/Huma
         "fields, typed fields left to a default_factory / mutable defaults filled in place, stop-event subclasses, failure "
         "events with 12 exception kinds} x a JSON value alphabet (None, bools, ints "
         "> 2^53, floats, unicode/escape strings, nested lists/dicts depth <= 2, marker-like keys) in dynamic fields, results and "
-        "Any-typed fields x 9 channels (JsonSerializer plain and nested, EventEnvelopeWithMetadata via qualified name / via "
+        "Any-typed fields x 10 channels (the bare field dict the client sends for a start event, read with the start class - incl. start events whose fields are named 'type' / 'qualified_name'; JsonSerializer plain and nested, EventEnvelopeWithMetadata via qualified name / via "
         "registry, EventEnvelope.parse, persisted ticks: add_event, publish_event, step_result payloads incl. add_collected / "
         "add_waiter, step input) through real JSON text; class, typed fields, dynamic fields, result and exception type + "
         "message compared; non-trivial = events with dynamic fields or results")
